@@ -419,3 +419,42 @@ func lengthScripts(counts []int) []seqScript {
 	}
 	return out
 }
+
+// stringTokenPhase: every string of up to 4 TOKENS over {a, blank, <, escaped backslash, escaped quote, \n,
+// a \u escape, a raw two-byte character} - the shapes on which a hand-written scan of a string literal
+// goes wrong (which quote ends it, what an escape swallows) - as a member value, a member name and a
+// nested value, with EscapeHTML on and off, under the empty patch and three small ones. The strings are
+// untouched by the patch: they must keep their value (C05) in a well-formed output (C15).
+func stringTokenPhase(p *seqProp, maxTok int) *seqProp {
+	d := *p
+	d.Docs, d.Alpha, d.Depth = nil, nil, 0
+	d.Opts = []r69.Options{{Neg: true, EscapeHTML: true}, {Neg: true, EscapeHTML: false}}
+	toks := []string{"a", " ", "<", `\\`, `\"`, `\n`, `é`, "ü"}
+	d.Scripts = func() []seqScript {
+		var seqs []string
+		var rec func(cur string, n int)
+		rec = func(cur string, n int) {
+			seqs = append(seqs, cur)
+			if n == maxTok {
+				return
+			}
+			for _, t := range toks {
+				rec(cur+t, n+1)
+			}
+		}
+		rec("", 0)
+		one := rj.MustParse(`1`)
+		var out []seqScript
+		for _, s := range seqs {
+			doc := `{"s":"` + s + `","t":"x y \" z","N` + s + `":{"u":"` + s + ` "},"k":[" ` + s + `"]}`
+			v := rj.MustParse(`"` + s + `"`)
+			out = append(out, seqScript{doc, nil},
+				seqScript{doc, []r69.Op{{Kind: "add", Path: "/q", Value: one, HasValue: true}}},
+				seqScript{doc, []r69.Op{{Kind: "test", Path: "/s", Value: v, HasValue: true}, {Kind: "copy", From: "/s", Path: "/c"}}},
+				seqScript{doc, []r69.Op{{Kind: "add", Path: "/k/-", Value: v, HasValue: true}, {Kind: "remove", Path: "/t"}}})
+		}
+		return out
+	}
+	d.Rule = fmt.Sprintf("STRING SHAPES: every string of <= %d tokens over {a, blank, <, escaped backslash, escaped quote, \\n, \\u00e9, raw two-byte character} as member value, member name and nested value, EscapeHTML on and off, under the empty patch and three small patches that leave the strings alone; same oracle", maxTok)
+	return &d
+}
